@@ -206,6 +206,8 @@ def run(ctx, p):
                 break
             perm = rng.permutation(m)
         dup = np.concatenate([perm, perm[: max(1, m // 3)]])
+        if rep % 2 == 0 and m >= 3:
+            dup = perm                     # every other repetition: a pure permutation, no repeated point
         try:
             o2 = ctx.call(s, take(ent, a, dup), t)
             # record k of the permuted call carries the positions of point dup[k] (values: C06's subject)
